@@ -4,7 +4,8 @@ import PySMT.Impl.CreateNode
 /-! Driver of C03.
 * `type <term>` / `wt <term>` / `echo` / `fv` / `eval` — `DriverLib.coreAnswer`
 * `hastype <term>`  — the sort by the SMT-LIB rules (`Term.sortOf`, the computable form of `Spec.HasType`) | `none`
-* `chk <term>`      — `<typeOf> | <wt> | <sortOf> | <noF06> | <rotInRange>` in one answer
+* `chk <term>`      — `<typeOf> | <wt> | <sortOf> | <noF06> | <rotInRange> | <typeOfRaw> | <wtRaw> | <arityOkAll>` in one answer
+  (`typeOfRaw`/`wtRaw`: the real checker's rule on raw nodes of any arity, `CreateNode.pyNode`)
 * `hist <n> (<op> <payload> <k> <argcall>*k)*n` — a history of `create_node` calls through `CreateNode.run`;
   answer: one of `ok`/`err`/`skip` per call, then `+<growth of the table>`
 -/
@@ -12,7 +13,7 @@ open PySMT PySMT.DriverLib PySMT.Wire
 
 def chk : P String := do
   let t ← term
-  return s!"{encOptTy t.typeOf} | {t.wt} | {encOptTy t.sortOf} | {t.noF06} | {t.rotInRange}"
+  return s!"{encOptTy t.typeOf} | {t.wt} | {encOptTy t.sortOf} | {t.noF06} | {t.rotInRange} | {encOptTy t.typeOfRaw} | {t.wtRaw} | {t.arityOkAll}"
 
 def call : P CreateNode.Call := do
   let opn ← next
